@@ -30,6 +30,16 @@ CHECKS = {
    text="TLC checks the round-trip law on the writer/interpreter design for every behaviour of the bounded model and supplies the cases: behaviours with as-parsed relative/smooth flags, curves that look smooth w.r.t. a no-longer-adjacent curve, every lattice chord x radii (too small / large) x rotation x flags, object-built shapes with sub-paths lacking their own move. The real library writes each in all nine (relative, smooth) modes and in seeded decimal units, re-parses, and must reproduce kinds, count and geometry to 12 significant digits (arc tolerance scaled by the F.6.6 conditioning).",
    note="Trusted: TLC, PathWrite.tla/PathInterp.tla, unit-equivariance of interpretation, the comparator (~60 lines, incl. F.6.6 Lambda for the arc tolerance). Known finding: 6-digit '%G' radii (pinned by test_svg_example14). Arcs with |sweep| > tau are not written by the library and are not generated.",
    design="5/C07"),
+ "C04": dict(
+   technique="TLA+ TransformList/Affine over exact rationals (Pythagorean rotations, rational tangents) model-checked by TLC; every list and every Matrix operation history replayed into Matrix(string)/pre_/post_/~/*",
+   text="TLC enumerates every transform list of <= 3 function instances (all 11 SVG/CSS functions, optional arguments present/omitted, centred rotation) with its exact denotation, and every history of pre_/post_ operations (incl. centred scale/skew), pre_cat/post_cat, left/right multiplication, inversion and reset on a mutable matrix; ListIsDenotation, InverseTwoSided, IdNeutral and PointApplication are invariants of the spec. Each list is spelled canonically and twice with seeded letter case (names and units), separators, angle units (deg/grad/rad/turn/unitless) and length units, parsed by the real Matrix and compared entry by entry and through Point * Matrix.",
+   note="Trusted: TLC, Rat/Affine/TransformList.tla, spelling code; angles with irrational cos/sin and mm/cm lengths (C12) are not generated; lists longer than 3 only in the thorough alphabet. Known finding: physical-unit translate inside a multi-function list raises ValueError.",
+   design="5/C04"),
+ "C18": dict(
+   technique="TLA+ frame-condition model Alias (kinds x derivations x mutation histories, action property Independent) enumerated by TLC; each history executed on real objects with deep structural snapshots per step, plus the heap invariant NoSharedMutable evaluated on the real object graph with witness mutations",
+   text="TLC enumerates 25 object kinds x every applicable derivation (copy, * M, abs, Path(x), ~, @, +) x every history of <= MaxMut public mutations applied to either side; the spec's version counters say which side may change. The harness replays each history and compares deep snapshots of the untouched side after every step; for the empty history it computes the set of mutable objects reachable from both source and result and confirms each by writing it through the result.",
+   note="Trusted: TLC, Alias.tla's applicability tables, the snapshot/reachability walker (~80 lines; caches _length/_lengths/n excluded). The mutation alphabet is finite (listed in Alias.tla); sharing outside it is still caught by the heap check when a witness mutation exists. Image has no pixel payload (PIL absent).",
+   design="5/C18"),
 }
 NOT_BUILT = "check not built yet (planned: DESIGN.md section 5)"
 
